@@ -68,6 +68,8 @@ def _place(e):
         k = A.kind(e)
     if k == "Expr::Path":
         return A.path_str(e)
+    if k == "Expr::Index":
+        return None
     if k == "Expr::Field":
         b = _place(e["base"])
         if b is None:
@@ -105,11 +107,38 @@ def ev(e, env):
         return ev(e["expr"], env)
     if k == "Expr::Lit":
         r = A.render(e)
-        return True if r == "true" else False if r == "false" else ("lit", r)
+        if r in ("true", "false"):
+            return r == "true"
+        import re as _re
+
+        m_ = _re.fullmatch(r"(\d+)(?:usize|u\d+|i\d+|isize)?", r.replace("_", ""))
+        if m_:
+            return int(m_.group(1))
+        return ("lit", r)
+    if k == "Expr::Index":
+        base = _place(e["expr"])
+        i_ = ev(e["index"], env)
+        if base is not None and isinstance(i_, int) and not isinstance(i_, bool):
+            return env.get(f"{base}[{i_}]")
+        return TOP
     if k in ("Expr::Path", "Expr::Field"):
         pl = _place(e)
         if pl == "None" or (pl or "").endswith("::None"):
             return NONE
+        if pl is None and k == "Expr::Field":
+            # a field chain through an index with a computable constant: `infos[source].info.source`
+            chain = []
+            x = e
+            while A.kind(x) == "Expr::Field":
+                m_ = x["member"]
+                chain.append(m_["0"]["sym"] if A.kind(m_) == "Member::Named" else str(m_["0"]["index"]))
+                x = x["base"]
+            if A.kind(x) == "Expr::Index":
+                base = _place(x["expr"])
+                i_ = ev(x["index"], env)
+                if base is not None and isinstance(i_, int) and not isinstance(i_, bool):
+                    return env.get(f"{base}[{i_}]." + ".".join(reversed(chain)))
+            return TOP
         return env.get(pl) if pl else TOP
     if k == "Expr::Unary":
         op = A.kind(e["op"])
@@ -138,6 +167,24 @@ def ev(e, env):
                 return r if isinstance(r, bool) else TOP
             return True if r is True else TOP
         l, r = ev(e["left"], env), ev(e["right"], env)
+        ints = all(isinstance(x, int) and not isinstance(x, bool) for x in (l, r))
+        if ints:
+            if op == "BinOp::Add":
+                return l + r
+            if op == "BinOp::Sub":
+                return l - r
+            if op == "BinOp::Mul":
+                return l * r
+            if op == "BinOp::Rem" and r != 0:
+                return l % r
+            if op == "BinOp::Lt":
+                return l < r
+            if op == "BinOp::Gt":
+                return l > r
+            if op == "BinOp::Le":
+                return l <= r
+            if op == "BinOp::Ge":
+                return l >= r
         if op in ("BinOp::Eq", "BinOp::Ne") and TOP not in (l, r) and not any(isinstance(x, tuple) and "TOP" in str(x) for x in (l, r)):
             return (l == r) if op == "BinOp::Eq" else (l != r)
         return TOP
@@ -169,7 +216,16 @@ def ev(e, env):
         args = e["args"]
         if m in ("as_ref", "as_mut", "clone", "copied", "cloned", "as_deref", "by_ref"):
             return v
+        if isinstance(v, bool) and m == "then_some" and len(args) == 1:
+            return some(ev(args[0], env)) if v else NONE
+        if isinstance(v, bool) and m == "then" and len(args) == 1:
+            return some(_call_closure(args[0], [], env)) if v else NONE
         if not _is_opt(v):
+            # an opaque observation the caller seeded under its rendered text (`fields.len()`)
+            key = A.render(e)
+            got = env.get(key)
+            if got != TOP:
+                return got
             for a in args:
                 if A.kind(a) != "Expr::Closure":
                     ev(a, env)
@@ -193,8 +249,13 @@ def ev(e, env):
             return NONE if v == NONE else _call_closure(args[0], [v[1]], env)
         if m == "map" and len(args) == 1:
             return NONE if v == NONE else some(_call_closure(args[0], [v[1]], env))
-        if m == "filter":
-            return NONE if v == NONE else TOP
+        if m == "filter" and len(args) == 1:
+            if v == NONE:
+                return NONE
+            c_ = _call_closure(args[0], [v[1]], env)
+            return v if c_ is True else NONE if c_ is False else TOP
+        if m == "then_some" and len(args) == 1:
+            return TOP
         if m in ("unwrap_or", "unwrap_or_else", "unwrap_or_default", "unwrap", "expect"):
             if v != NONE:
                 return v[1]
